@@ -1487,6 +1487,11 @@ class Interp:
         for k in node.keywords:
             if k.arg is None:
                 d = self.eval(k.value, env)
+                if isinstance(d, SMap):
+                    # f(**d) with a dict of symbolic keys: handed over as ONE object (the callee must be a model that expects it, or a
+                    # closure that only passes its **kwargs on)
+                    kwargs["__pyvc_starkw__"] = d
+                    continue
                 if isinstance(d, Sym):
                     raise Undecided("** of symbolic mapping")
                 kwargs.update(d)
